@@ -100,9 +100,13 @@ class QuoteProbes(object):
             v = getattr(q, name, None)
             if v is not None:
                 self.comp_by_id[id(v)] = comp
-        probes.watch("ural.quote:unquote", on_return=self.on_unquote)
-        probes.watch("ural.quote:safely_quote", on_return=self.on_quote)
-        probes.watch("ural.quote:upper_quoted", on_return=self.on_upper)
+        if not probes.watch("ural.quote:unquote", on_return=self.on_unquote) or not self.comp_by_id:
+            for comp in ("auth", "path", "query", "fragment"):
+                ctx.count("probe-unquote-%s:not-applicable" % comp)
+        if not probes.watch("ural.quote:safely_quote", on_return=self.on_quote):
+            ctx.count("probe-safely_quote:not-applicable")
+        if not probes.watch("ural.quote:upper_quoted", on_return=self.on_upper):
+            ctx.count("probe-upper_quoted:not-applicable")
         probes.watch("ural.quote:_unquote_impl", want_args=False)
         probes.watch("ural.quote:_generate_unquoted_parts", want_args=False)
         probes.watch("ural.quote:safely_quote_iter", want_args=False)
